@@ -14,11 +14,16 @@ func vhC13WorkerPool() {
 	served := make([]int, nconn)
 	conns := make([]*c12Conn, nconn)
 	maxSeen := 0
+	hijacked := make([]bool, nconn)
+	finals := make([][]ConnState, nconn)
 	wp := &workerPool{
 		MaxWorkersCount:       vIntRange("maxWorkers", 1, 2),
 		MaxIdleWorkerDuration: time.Second,
 		Logger:                defaultLogger,
-		connState:             func(net.Conn, ConnState) {},
+	}
+	wp.connState = func(c net.Conn, st ConnState) {
+		i := int(c.(*c12Conn).ip[len(c.(*c12Conn).ip)-1])
+		finals[i] = append(finals[i], st)
 	}
 	wp.WorkerFunc = func(c net.Conn) error {
 		cc := c.(*c12Conn)
@@ -30,6 +35,7 @@ func vhC13WorkerPool() {
 		wp.lock.Unlock()
 		vYield()
 		if vBool("hijack") {
+			hijacked[int(cc.ip[len(cc.ip)-1])] = true
 			return errHijacked
 		}
 		return nil
@@ -61,6 +67,21 @@ func vhC13WorkerPool() {
 		}
 	}
 	vAssert("served-exactly-once-iff-accepted", once)
+	// then closed, or reported hijacked (and left open) — per connection
+	endOK := true
+	for i := 0; i < nconn; i++ {
+		if !accepted[i] {
+			continue
+		}
+		if hijacked[i] {
+			if len(finals[i]) != 1 || finals[i][0] != StateHijacked || conns[i].closed != 0 {
+				endOK = false
+			}
+		} else if len(finals[i]) != 1 || finals[i][0] != StateClosed || conns[i].closed != 1 {
+			endOK = false
+		}
+	}
+	vAssert("each-connection-closed-or-reported-hijacked", endOK)
 	vAssert("worker-bound", maxSeen <= wp.MaxWorkersCount)
 	wp.lock.Lock()
 	idle := len(wp.ready)
